@@ -283,3 +283,35 @@ func replayCovers(n *Native, job *Job, v *Violation) (ReplayResult, bool) {
 	res.Observed = fmt.Sprintf("row %s: native reports %q, the property demands: %s", row, got, v.Witness[v.ID+".demand"])
 	return res, true
 }
+
+func isTypeName(s string) bool {
+	switch s {
+	case "NilClass", "Integer", "String", "Bool", "Float", "Symbol":
+		return true
+	}
+	return false
+}
+
+// replayDemand: replayKindsProgram + "demand" expectations (a diagnostic that is not a type).
+func replayDemand(n *Native, job *Job, v *Violation) (ReplayResult, bool) {
+	if v.Kind != "assert" {
+		return ReplayResult{}, false
+	}
+	if d, have := v.Witness[v.ID+".demand"]; have && d == "diagnostic-not-a-type" {
+		src := v.Witness["src"]
+		row := v.Witness[v.ID+".row"]
+		conc, okc := concretizeSym(src, v.Witness)
+		if !okc {
+			return ReplayResult{Observed: "cannot make the skeleton concrete"}, true
+		}
+		out, _, _ := n.RunTi(map[string]string{"a.rb": conc}, []string{"./a.rb"}, nativeConfigFor(n, job, src))
+		got := lineFor(out, row)
+		v.Witness["native-program"] = conc
+		bad := got == "" || isTypeName(got)
+		if v.ID == "C16-new" {
+			bad = bad || !strings.Contains(got, " ")
+		}
+		return ReplayResult{Cmd: "ti ./a.rb", Reproduced: bad, Observed: fmt.Sprintf("row %s: native reports %q, the property demands a diagnostic", row, got)}, true
+	}
+	return replayKindsProgram(n, job, v)
+}
